@@ -197,6 +197,67 @@ def filter_try_fact():
     return inside
 
 
+def deleted_fact():
+    """Is the working-tree side of an entry that git reports as deleted the missing file without a look at the disk?
+    Two shapes are known (anything else is an error):
+      old : `def _get_diff_entry_stream(path, blob, ref_name, repo_dir)`, no name `deleted` anywhere, both calls in
+            changed_notebooks positional                                                              -> False
+      new : a fifth parameter `deleted=False`; the branch `if ref_name is GitRefWorkingTree:` STARTS with
+            `if deleted: return EXPLICIT_MISSING_FILE` (before anything touches the disk) and `deleted` is used nowhere else;
+            in changed_notebooks the base-side call does not pass it and the remote-side call passes exactly
+            `deleted=<loop variable>.deleted_file`                                                     -> True"""
+    rel = 'nbdime/gitfiles.py'
+    tree = parse(rel)
+    f = func(tree, '_get_diff_entry_stream', rel)
+    a = f.args
+    if a.vararg or a.kwarg or a.kwonlyargs or a.posonlyargs:
+        raise GenError('gitfiles._get_diff_entry_stream: unexpected parameter kinds')
+    names = [x.arg for x in a.args]
+    uses = [n for n in ast.walk(f) if isinstance(n, ast.Name) and n.id == 'deleted']
+    cn = func(tree, 'changed_notebooks', rel)
+    loops = [n for n in cn.body if isinstance(n, ast.For)]
+    if len(loops) != 1 or not isinstance(loops[0].target, ast.Name):
+        raise GenError('gitfiles.changed_notebooks: expected exactly one top-level `for <name> in ...` loop')
+    var = loops[0].target.id
+    calls = [n for n in ast.walk(cn) if isinstance(n, ast.Call) and dotted(n.func) == '_get_diff_entry_stream']
+    if len(calls) != 2 or any(not any(c is n for n in ast.walk(loops[0])) for c in calls):
+        raise GenError('gitfiles.changed_notebooks: expected exactly two _get_diff_entry_stream calls, both inside the loop')
+    by_side = {}
+    for c in calls:
+        if len(c.args) != 4 or any(isinstance(x, ast.Starred) for x in c.args) or any(k.arg is None for k in c.keywords):
+            raise GenError('gitfiles.changed_notebooks: _get_diff_entry_stream call shape not recognised: ' + ast.unparse(c))
+        by_side[dotted(c.args[0])] = c
+    if set(by_side) != {var + '.a_path', var + '.b_path'}:
+        raise GenError('gitfiles.changed_notebooks: expected one _get_diff_entry_stream call per side of `%s`' % var)
+    ca, cb = by_side[var + '.a_path'], by_side[var + '.b_path']
+    if names == ['path', 'blob', 'ref_name', 'repo_dir'] and not a.defaults:
+        if uses or ca.keywords or cb.keywords:
+            raise GenError('gitfiles: four-parameter _get_diff_entry_stream, but `deleted` or keyword arguments are in use')
+        return False
+    if names != ['path', 'blob', 'ref_name', 'repo_dir', 'deleted'] or len(a.defaults) != 1 \
+            or not (isinstance(a.defaults[0], ast.Constant) and a.defaults[0].value is False):
+        raise GenError('gitfiles._get_diff_entry_stream: parameter list not recognised: ' + ast.unparse(a))
+    # the working-tree branch
+    wt = [n for n in ast.walk(f) if isinstance(n, ast.If) and isinstance(n.test, ast.Compare) and len(n.test.ops) == 1
+          and isinstance(n.test.ops[0], (ast.Is, ast.Eq)) and dotted(n.test.left) == 'ref_name'
+          and dotted(n.test.comparators[0]) == 'GitRefWorkingTree']
+    if len(wt) != 1:
+        raise GenError('gitfiles._get_diff_entry_stream: expected exactly one `if ref_name is GitRefWorkingTree:`')
+    body = wt[0].body
+    g = body[0] if body else None
+    ok = (isinstance(g, ast.If) and isinstance(g.test, ast.Name) and g.test.id == 'deleted' and not g.orelse
+          and len(g.body) == 1 and isinstance(g.body[0], ast.Return) and dotted(g.body[0].value) == 'EXPLICIT_MISSING_FILE')
+    if not ok or len(uses) != 1:
+        raise GenError('gitfiles._get_diff_entry_stream: `deleted` is not used as `if deleted: return EXPLICIT_MISSING_FILE` '
+                       'at the start of the working-tree branch (and nowhere else)')
+    if ca.keywords:
+        raise GenError('gitfiles.changed_notebooks: the base-side call passes keyword arguments: ' + ast.unparse(ca))
+    if len(cb.keywords) != 1 or cb.keywords[0].arg != 'deleted' or dotted(cb.keywords[0].value) != var + '.deleted_file':
+        raise GenError('gitfiles.changed_notebooks: the remote-side call does not pass exactly deleted=%s.deleted_file: %s'
+                       % (var, ast.unparse(cb)))
+    return True
+
+
 def allpaths_fact():
     """resolve_diff_args: what the branch `base and remote` / `not is_gitref(base)` assigns to base."""
     rel = 'nbdime/args.py'
@@ -232,6 +293,7 @@ def main():
     ap = allpaths_fact()
     skip_both = skip_fact()
     filt_try = filter_try_fact()
+    del_missing = deleted_fact()
     text = '''(* GENERATED by tools/gen/gen_gitrefs.py from /repo -- do not edit *)
 From Coq Require Import List NArith.
 From NB Require Import Base.Json.
@@ -244,8 +306,10 @@ Definition src_facts : facts := {|
   f_nb_suffix := %s;
   f_allpaths_base := %s;
   f_skip_both := %s;
-  f_filter_in_try := %s |}.
-''' % (saved, coq_bool(fin), '[' + '; '.join('%d' % ord(c) for c in suf) + ']%N', ap, coq_bool(skip_both), coq_bool(filt_try))
+  f_filter_in_try := %s;
+  f_deleted_missing := %s |}.
+''' % (saved, coq_bool(fin), '[' + '; '.join('%d' % ord(c) for c in suf) + ']%N', ap, coq_bool(skip_both), coq_bool(filt_try),
+       coq_bool(del_missing))
     if '--stdout' in sys.argv[1:]:
         sys.stdout.write(text)
     else:
